@@ -185,6 +185,21 @@ def build(w, variant='bytes'):
     w.classes['Conn'].methods.update({'send_bytes': conn_send_bytes, 'recv_bytes': conn_recv_bytes})
     w.classes['HM'].methods['digest'] = hm_digest
     w.classes['SockL'].methods['accept'] = sock_accept
+    from pyvc.absbytes import _take, _drop
+
+    def bytes_startswith(ex, args, kw):
+        x, p = args[0], args[1]
+        return SV(BoolS, z3.And(blen(x.e) >= blen(p.e), _take(x.e, blen(p.e)) == p.e))
+
+    def bytes_lstrip(ex, args, kw):
+        """x.lstrip(chars): x without its longest prefix made of bytes that occur in chars -- SOME suffix of x (which one
+        depends on byte values the abstract view does not see); x itself if x is empty"""
+        x = args[0]
+        k = IntS.fresh('stripped')
+        ex.path.assume(z3.And(k.e >= 0, k.e <= blen(x.e)))
+        return w.abstract_bytes.slice(ex, x, k, None)
+    w.externals.update({'<opaque>.startswith': bytes_startswith, '<opaque>.lstrip': bytes_lstrip,
+                        '<opaque>.strip': bytes_lstrip})
     w.externals.update({'hmac.new': ext_hmac_new, 'os.urandom': ext_urandom,
                         'isinstance<opaque>': lambda ex, a, k: mk_bool(variant == 'bytes')})
     deliver, answer = deliver_contract(), answer_contract()
